@@ -18,16 +18,16 @@ theorem Sat.ne_none {α : Type} {x : Option α} {Q : α → Prop} (h : Sat x Q) 
   rw [hb]; simp
 
 theorem scanWhile_ex (p : Int → Bool) (hp : p eof = false) (l : Lexer) (h0 : 0 ≤ l.pos) (h1 : l.pos ≤ l.len) :
-    ∃ r l', scanWhile p hp l = some (r, l') ∧ l'.len = l.len ∧ l'.start = l.start ∧ p r = false ∧
+    ∃ r l', scanWhile p hp l = some (r, l') ∧ (l'.len = l.len ∧ l'.mp = l.mp ∧ l'.tagStart = l.tagStart ∧ l'.bad = l.bad) ∧ l'.start = l.start ∧ p r = false ∧
       ScanFacts l r l' := by
   obtain ⟨⟨r, l'⟩, h, f⟩ := scanWhile_sat p hp l
-    (Q := fun x => x.2.len = l.len ∧ x.2.start = l.start ∧ p x.1 = false ∧ ScanFacts l x.1 x.2)
+    (Q := fun x => (x.2.len = l.len ∧ x.2.mp = l.mp ∧ x.2.tagStart = l.tagStart ∧ x.2.bad = l.bad) ∧ x.2.start = l.start ∧ p x.1 = false ∧ ScanFacts l x.1 x.2)
     h0 h1 (fun _ _ a b c d => ⟨a, b, c, d⟩)
   exact ⟨r, l', h, f⟩
 
 /-! ### comments -/
 
-theorem lexLineComment_sat {n : Int} {l0 l : Lexer} (hn : l.len = n) (h0 : 0 ≤ l.start)
+theorem lexLineComment_sat {n : Int} {l0 l : Lexer} (hn : l.len = n ∧ (l.mp : Int) ≤ n ∧ 0 ≤ l.tagStart ∧ l.tagStart ≤ n ∧ l.bad = 0) (h0 : 0 ≤ l.start)
     (h1 : l.start ≤ l.pos) (h2 : l.pos ≤ n) (hadv : l0.pos < l.pos) :
     Sat (lexLineComment l) (Post n .text l0) := by
   unfold lexLineComment
@@ -41,7 +41,7 @@ theorem lexLineComment_sat {n : Int} {l0 l : Lexer} (hn : l.len = n) (h0 : 0 ≤
   fin
 
 theorem lexBlockComment_sat {n : Int} {l0 : Lexer} : ∀ (k : Nat) (l : Lexer) (star : Bool), l.rem = k →
-    l.len = n → 0 ≤ l.start → l.start ≤ l.pos → l.pos ≤ n → l0.pos < l.pos →
+    (l.len = n ∧ (l.mp : Int) ≤ n ∧ 0 ≤ l.tagStart ∧ l.tagStart ≤ n ∧ l.bad = 0) → 0 ≤ l.start → l.start ≤ l.pos → l.pos ≤ n → l0.pos < l.pos →
     Sat (lexBlockComment l star) (Post n .text l0) := by
   intro k
   induction k using Nat.strongRecOn with
@@ -56,7 +56,7 @@ theorem lexBlockComment_sat {n : Int} {l0 : Lexer} : ∀ (k : Nat) (l : Lexer) (
       obtain ⟨hl1, hs1, hf1⟩ := next_facts hnx (by lx)
       unfold NextFacts at hf1
       split
-      · first | exact errorf_sat | exact errorfAt_sat
+      · first | exact errorf_sat (by lx) | exact errorfAt_sat (by lx)
       split
       · exact ih l1.rem (by simp only [Lexer.rem] at hk ⊢; lx) l1 _ rfl (by lx) (by lx) (by lx) (by lx) (by lx)
       split
@@ -70,9 +70,9 @@ theorem lexBlockComment_sat {n : Int} {l0 : Lexer} : ∀ (k : Nat) (l : Lexer) (
 
 /-- result of lexSoyDocParam and its second half: a lexer with the invariant, not behind `p` -/
 def SdpPost (n p : Int) (l' : Lexer) : Prop :=
-  l'.len = n ∧ 0 ≤ l'.start ∧ l'.start ≤ l'.pos ∧ l'.pos ≤ n ∧ p ≤ l'.pos
+  (l'.len = n ∧ (l'.mp : Int) ≤ n ∧ 0 ≤ l'.tagStart ∧ l'.tagStart ≤ n ∧ l'.bad = 0) ∧ 0 ≤ l'.start ∧ l'.start ≤ l'.pos ∧ l'.pos ≤ n ∧ p ≤ l'.pos
 
-theorem lexSoyDocParamName_sat {n : Int} {l : Lexer} (hn : l.len = n) (h0 : 0 ≤ l.start)
+theorem lexSoyDocParamName_sat {n : Int} {l : Lexer} (hn : l.len = n ∧ (l.mp : Int) ≤ n ∧ 0 ≤ l.tagStart ∧ l.tagStart ≤ n ∧ l.bad = 0) (h0 : 0 ≤ l.start)
     (h1 : l.start ≤ l.pos) (h2 : l.pos ≤ n) :
     Sat (lexSoyDocParamName l) (SdpPost n l.pos) := by
   unfold lexSoyDocParamName
@@ -108,7 +108,7 @@ theorem SdpPost.mono {n p q : Int} {l : Lexer} (h : SdpPost n p l) (hq : q ≤ p
   unfold SdpPost at h ⊢
   omega
 
-theorem lexSoyDocParam_sat {n : Int} {l : Lexer} (hn : l.len = n) (h0 : 0 ≤ l.start)
+theorem lexSoyDocParam_sat {n : Int} {l : Lexer} (hn : l.len = n ∧ (l.mp : Int) ≤ n ∧ 0 ≤ l.tagStart ∧ l.tagStart ≤ n ∧ l.bad = 0) (h0 : 0 ≤ l.start)
     (h1 : l.start ≤ l.pos) (h2 : l.pos + 6 ≤ n) :
     Sat (lexSoyDocParam l) (SdpPost n l.pos) := by
   unfold lexSoyDocParam
@@ -144,12 +144,12 @@ theorem isEndOfLine_nonneg {r : Int} (h : isEndOfLine r = true) : 0 ≤ r := by
 /-- the loop of lexSoyDoc, entered (from lexText at `l0`) after input has been consumed -/
 theorem lexSoyDocLoop_sat {n : Int} {l0 : Lexer} : ∀ (k : Nat) (l : Lexer) (ds : Int) (star sol : Bool),
     2 * l.rem + (if sol = true then 1 else 0) = k →
-    l.len = n → 0 ≤ l.start → l.start ≤ l.pos → l.pos ≤ n → l0.pos < l.pos →
-    Sat (lexSoyDocLoop l ds star sol) (Post n .text l0) := by
+    (l.len = n ∧ (l.mp : Int) ≤ n ∧ 0 ≤ l.tagStart ∧ l.tagStart ≤ n ∧ l.bad = 0) → 0 ≤ l.start → l.start ≤ l.pos → l.pos ≤ n → l0.pos < l.pos →
+    ds ≤ n → Sat (lexSoyDocLoop l ds star sol) (Post n .text l0) := by
   intro k
   induction k using Nat.strongRecOn with
   | _ k ih =>
-    intro l ds star sol hk hn h0 h1 h2 hadv
+    intro l ds star sol hk hn h0 h1 h2 hadv hds
     unfold lexSoyDocLoop
     split
     · rename_i heq
@@ -159,7 +159,7 @@ theorem lexSoyDocLoop_sat {n : Int} {l0 : Lexer} : ∀ (k : Nat) (l : Lexer) (ds
       obtain ⟨hl1, hs1, hf1⟩ := next_facts hnx (by lx)
       unfold NextFacts at hf1
       split
-      · first | exact errorf_sat | exact errorfAt_sat
+      · first | exact errorf_sat (by lx) | exact errorfAt_sat (by lx)
       rename_i hE
       simp only [eof] at hE
       have hrem1 : l1.rem < l.rem := by simp only [Lexer.rem]; lx
@@ -175,10 +175,10 @@ theorem lexSoyDocLoop_sat {n : Int} {l0 : Lexer} : ∀ (k : Nat) (l : Lexer) (ds
       · rename_i hS
         split
         · exact ih _ (by rw [← hk]; simp only [hS, if_true]; omega) l1 _ _ _ rfl
-            (by lx) (by lx) (by lx) (by lx) (by lx)
+            (by lx) (by lx) (by lx) (by lx) (by lx) hds
         split
         · exact ih _ (by rw [← hk]; simp only [hS, if_true]; omega) l1 _ _ _ rfl
-            (by lx) (by lx) (by lx) (by lx) (by lx)
+            (by lx) (by lx) (by lx) (by lx) (by lx) hds
         · rename_i hSp hSt
           have hpre := hasPrefixAt_sat (s := l1.input) (pos := l1.pos - 1) (pre := atParam)
             (Q := fun b => b = true → l1.pos - 1 + 6 ≤ l1.len) (by lx) (by lx)
@@ -207,12 +207,12 @@ theorem lexSoyDocLoop_sat {n : Int} {l0 : Lexer} : ∀ (k : Nat) (l : Lexer) (ds
               · rename_i hEol
                 exact absurd (isEndOfLine_isSpaceEOL hEol) hSp
               · exact ih _ (by rw [← hk]; simp only [hS, if_true, Bool.false_eq_true, if_false]; omega) l2 _ _ _ rfl
-                  (by lx) (by lx) (by lx) (by lx) (by lx)
+                  (by lx) (by lx) (by lx) (by lx) (by lx) hds
       · rename_i hS
         have hS' : sol = false := by simpa using hS
         split
         · have hm := maybeEmitText_sat (l := l1) (k := 1)
-            (Q := fun l' => l'.len = l1.len ∧ l'.pos = l1.pos ∧ l'.width = l1.width ∧
+            (Q := fun l' => (l'.len = l1.len ∧ l1.mp ≤ l'.mp ∧ ((l'.mp : Int) = l1.mp ∨ (l'.mp : Int) = l1.pos - 1) ∧ l'.tagStart = l1.tagStart ∧ l'.bad = l1.bad) ∧ l'.pos = l1.pos ∧ l'.width = l1.width ∧
               (l'.start = l1.start ∨ (l1.start < l1.pos - 1 ∧ l'.start = l1.pos - 1)))
             (by lx) (by omega) (by lx) (fun _ a b c d => ⟨a, b, c, d⟩)
           split
@@ -221,17 +221,17 @@ theorem lexSoyDocLoop_sat {n : Int} {l0 : Lexer} : ∀ (k : Nat) (l : Lexer) (ds
             obtain ⟨hl2, hp2, hw2, hs2⟩ := hm.of_eq hM
             have hrem2 : l2.rem < l.rem := by simp only [Lexer.rem]; lx
             exact ih _ (by rw [← hk]; simp only [hS', Bool.false_eq_true, if_false, if_true]; omega) l2 _ _ _ rfl
-              (by lx) (by lx) (by lx) (by lx) (by lx)
+              (by lx) (by lx) (by lx) (by lx) (by lx) hds
         · exact ih _ (by rw [← hk]; simp only [hS', Bool.false_eq_true, if_false]; omega) l1 _ _ _ rfl
-            (by lx) (by lx) (by lx) (by lx) (by lx)
+            (by lx) (by lx) (by lx) (by lx) (by lx) hds
 
-theorem lexSoyDoc_sat {n : Int} {l0 l : Lexer} (hn : l.len = n) (h0 : 0 ≤ l.start)
+theorem lexSoyDoc_sat {n : Int} {l0 l : Lexer} (hn : l.len = n ∧ (l.mp : Int) ≤ n ∧ 0 ≤ l.tagStart ∧ l.tagStart ≤ n ∧ l.bad = 0) (h0 : 0 ≤ l.start)
     (h1 : l.start ≤ l.pos) (h2 : l.pos ≤ n) (hadv : l0.pos < l.pos) :
     Sat (lexSoyDoc l) (Post n .text l0) := by
   unfold lexSoyDoc
   obtain ⟨l1, e1, hl1, hp1, hs1, hw1⟩ := emit_ex .tSoyDocStart (l := l) (by lx) (by lx) (by lx)
   simp only [e1]
-  exact lexSoyDocLoop_sat _ l1 _ _ _ rfl (by lx) (by lx) (by lx) (by lx) (by lx)
+  exact lexSoyDocLoop_sat _ l1 _ _ _ rfl (by lx) (by lx) (by lx) (by lx) (by lx) (by lx)
 
 
 /-! ### lexText -/
@@ -239,7 +239,7 @@ theorem lexSoyDoc_sat {n : Int} {l0 l : Lexer} (hn : l.len = n) (h0 : 0 ≤ l.st
 /-- the loop of lexText started at `l0`: `start` stays put, `pos` moves on, and once a
     character has been read (`lastChar ≠ 0`) the pending text is not empty -/
 theorem lexTextLoop_sat {n : Int} {l0 : Lexer} : ∀ (k : Nat) (l : Lexer) (lastChar : Int), l.rem = k →
-    l.len = n → 0 ≤ l.start → l.start ≤ l.pos → l.pos ≤ n → l0.pos ≤ l.pos →
+    (l.len = n ∧ (l.mp : Int) ≤ n ∧ 0 ≤ l.tagStart ∧ l.tagStart ≤ n ∧ l.bad = 0) → 0 ≤ l.start → l.start ≤ l.pos → l.pos ≤ n → l0.pos ≤ l.pos →
     (lastChar = 0 ∨ l.start < l.pos) →
     Sat (lexTextLoop l lastChar) (Post n .text l0) := by
   intro k
@@ -282,7 +282,7 @@ theorem lexTextLoop_sat {n : Int} {l0 : Lexer} : ∀ (k : Nat) (l : Lexer) (last
                   · exact absurd h hlc
                   · exact h
                 exact lexLineComment_sat (l := { l3 with start := l3.start + 1 })
-                  (by simp only [Lexer.len] at *; omega) (by dsimp only; lx) (by dsimp only; lx)
+                  (by simp only [Lexer.len, Lexer.mp, Lexer.bad] at *; omega) (by dsimp only; lx) (by dsimp only; lx)
                   (by dsimp only; lx) (by dsimp only; lx)
             · exact ih _ (by omega) l2.backup _ rfl (by lx) (by lx) (by lx) (by lx) (by lx) (Or.inr (by lx))
           split
@@ -303,7 +303,7 @@ theorem lexTextLoop_sat {n : Int} {l0 : Lexer} : ∀ (k : Nat) (l : Lexer) (last
         apply Sat.ofSome
         apply Post.of (by lx) (by lx) (by lx) (by lx) (by lx) (by intro _ _; decide) (by intro _ _; decide)
       split
-      · first | exact errorf_sat | exact errorfAt_sat
+      · first | exact errorf_sat (by lx) | exact errorfAt_sat (by lx)
       split
       · -- eof
         obtain ⟨l2, e2, hl2, hp2, hw2, hs2⟩ := maybeEmitText_ex (l := l1.backup) (k := 0) (by lx) (by omega) (by lx)
@@ -311,7 +311,7 @@ theorem lexTextLoop_sat {n : Int} {l0 : Lexer} : ∀ (k : Nat) (l : Lexer) (last
         obtain ⟨l3, e3, hl3, hp3, hs3, hw3⟩ := emit_ex .tEOF (l := l2) (by lx) (by lx) (by lx)
         simp only [e3]
         obtain ⟨it, hb, ht⟩ := emit_items e3
-        exact Sat.ofSome (Post.nil ⟨it, hb, Or.inl ht⟩)
+        exact Sat.ofSome (Post.nil ⟨it, hb, Or.inl ht⟩ (by lx))
       · rename_i hE
         simp only [eof] at hE
         have hrem : l1.rem < l.rem := by simp only [Lexer.rem]; lx
